@@ -8,10 +8,13 @@ RULE = ("Ts and TsGroup on single-interval supports [a,b] with a in {0, 100 s, -
         "(a) real NumPy generator with many seeds: the property's own conservation laws (count, inside support, support kept, "
         "first timestamp and multiset of intervals, k-th timestamp moved by <= max_jitter, keys) as oracle; "
         "(b) np.random.uniform / permutation replaced (harness side) by a recorded lattice-valued generator so that the Lean "
-        "model, a deterministic function of the draws, must reproduce the result exactly. distinct = distinct (input, draws)")
+        "model, a deterministic function of the draws, must reproduce the result exactly (Ts: shift, jitter, shuffle, resample; TsGroup with a "
+        "member without spikes and a single-spike member: all five generator variants against the group model). distinct = distinct (input, draws)")
 PROVED = ("shift_inside (wrapped time in [a,b) for every t, shift, support), shift_count, shift_all_inside (constructor drops "
           "nothing), shift_period, shuffle_first, shuffle_diffs + permute_perm (intervals are a permutation), jitter_count, jitter_order_stat (the k-th sorted jittered timestamp is within max|jitter| of the k-th original one; any length, ties)")
-NOT_PROVED = "resample, TsGroup member-wise lifting: oracle only"
+NOT_PROVED = ("the float arithmetic of the new timestamps (bounded by the 2 ns tolerance); for jitter / shuffle on a TsGroup the count of a member whose "
+              "new timestamps span no duration is NOT conserved: open finding C20-group-lone-spike (Lean witness regroup_lone_spike_witness)")
+EXTRA_MODULES = ["C20Group"]
 ASSUMPTIONS = ["draws are inputs of the model; the 1e-9 rounding of new timestamps is bounded (2 ns tolerance), not proved"]
 
 
@@ -105,6 +108,64 @@ def run(ctx):
                 rg = nap.shuffle_ts_intervals(g)
                 if sorted(rg.keys()) != [2, 7] or ns_arr(rg[7].t)[0] != ts[0] or ns_arr(rg[2].t)[0] != ts[0]:
                     ctx.fail("oracle", "shuffle_ts_intervals(TsGroup): keys / first timestamps", inp)
+        # TsGroup with a member that has no spike and a member with a single spike after everybody else's last one:
+        # every generator once with the real NumPy generator (oracle) and once with recorded lattice draws (oracle + the
+        # group-level Lean model `regroup`, PynModel/Process/RandomizeGroup.lean, must reproduce the group exactly)
+        if k % 5 == 1 and len(set(ts)) >= 2 and ts[-1] + q < b:
+            lone = ts[-1] + q
+            mem = {4: [], 7: ts, 9: [lone]}
+            mk_g = lambda: nap.TsGroup({j: nap.Ts(np.array(v) / 1e9, time_support=sup) for j, v in mem.items()}, time_support=sup)
+            ginp = dict(inp, members=mem)
+            kt = "+".join("%d@%s" % (j, enc(mem[j])) for j in (4, 7, 9))
+            supp = "%d:%d" % (a, b)
+            mjk = min(mj, q / 2e9)
+            gens = (("shift_timestamps", lambda g: nap.shift_timestamps(g, min_shift=0.0, max_shift=(b - a) / 1e9 * 2), True,
+                     lambda log: "gshift %s %d %d %s" % (kt, a, b, enc([v for kind, v in log if kind == "u"]))),
+                    ("resample_timestamps", lambda g: nap.resample_timestamps(g), True,
+                     lambda log: "gjitter %s %s %s" % ("+".join("%d@%s" % (j, enc([0] * len(mem[j]))) for j in (4, 7, 9)),
+                                                       "/".join(enc(v) for kind, v in log if kind == "U"), supp)),
+                    ("jitter_timestamps(keep_tsupport=True)", lambda g: nap.jitter_timestamps(g, max_jitter=mjk, keep_tsupport=True), True,
+                     lambda log: "gjitter %s %s %s" % (kt, "/".join(enc(v) for kind, v in log if kind == "U"), supp)),
+                    ("jitter_timestamps", lambda g: nap.jitter_timestamps(g, max_jitter=mj), False,
+                     lambda log: "gjitter %s %s none" % (kt, "/".join(enc(v) for kind, v in log if kind == "U"))),
+                    ("shuffle_ts_intervals", lambda g: nap.shuffle_ts_intervals(g), False,
+                     lambda log: "gshuffle %s %s" % (kt, "/".join(enc(v) for kind, v in log if kind == "p"))))
+            for name, fn, keeps, mline in gens:
+                for recorded in (False, True):
+                    ctx.count("group-with-empty-and-lone:%s:%s" % (name, "recorded-draws" if recorded else "numpy-generator"))
+                    d = Draws(ctx.rng, q)
+                    try:
+                        rg = with_draws(d, lambda: fn(mk_g())) if recorded else fn(mk_g())
+                    except Exception as e:
+                        ctx.fail("oracle", "%s(TsGroup with a member without spikes) raised %s" % (name, type(e).__name__), ginp, impl=repr(e))
+                        continue
+                    got = dict(sup=list(zip(*iset_ns(rg.time_support))), members={int(j): ns_arr(rg[j].t) for j in rg.keys()})
+                    eq = None
+                    if recorded and ctx.lean:
+                        line = mline(d.log)
+                        o = ctx.lean.run([line])[0]
+                        if "|" in o:
+                            ms_ = o.split("|")[1]
+                            mod = dict(sup=[tuple(int(v) for v in c.split(":")) for c in o.split("|")[0].split(",")] if o.split("|")[0] != "-" else [],
+                                       members={int(c.split("@")[0]): dec(c.split("@")[1]) for c in ms_.split("+")} if ms_ != "-" else {})
+                        else:
+                            mod = o
+                        eq = mod == dict(sup=[tuple(x) for x in got["sup"]], members=got["members"])
+                        if not eq:
+                            ctx.fail("corr", "%s(TsGroup) != model group on the recorded draws" % name, dict(ginp, line=line), impl=got, model=mod)
+                            continue
+                    jk = name.startswith("jitter_timestamps(keep")      # with keep_tsupport=True spikes may leave the support: counts are not promised
+                    cnt = {j: len(v) for j, v in got["members"].items()}
+                    if sorted(cnt) != [4, 7, 9] or cnt[4] != 0 or (cnt[7] > len(ts) if jk else cnt[7] != len(ts)):
+                        ctx.fail("oracle", "%s(TsGroup): keys / counts of the empty and the full member" % name, ginp, impl=got)
+                    elif keeps and (iset_ns(rg.time_support) != ([a], [b]) or (cnt[9] > 1 if jk else cnt[9] != 1)):
+                        ctx.fail("oracle", "%s(TsGroup): support / count of the single-spike member" % name, ginp, impl=got)
+                    elif not keeps and cnt[9] != 1:
+                        # the open finding's class: a member whose new timestamps span no duration has no support of its own
+                        fctx = dict(op=name, group=True, member_count=1, member_lost=True, impl_equals_model=eq,
+                                    outside_others=bool(got["members"][7]) and not (got["sup"] and got["sup"][0][0] <= lone - (mj * 1e9 if name.startswith("jitter") else 0)
+                                                                                    and lone + (mj * 1e9 if name.startswith("jitter") else 0) <= got["sup"][-1][1]))
+                        ctx.fail("oracle", "%s(TsGroup): the single-spike member lost its spike" % name, ginp, impl=got, finding_ctx=fctx)
         # ---- (b) lattice draws, model must reproduce exactly
         d = Draws(ctx.rng, q)
         r = with_draws(d, lambda: nap.shift_timestamps(x, min_shift=0.0, max_shift=(b - a) / 1e9 * 2))
@@ -112,6 +173,9 @@ def run(ctx):
         d = Draws(ctx.rng, q)
         r = with_draws(d, lambda: nap.jitter_timestamps(x, max_jitter=2.0))
         lines.append("jitter %s %s" % (enc(ts), enc(d.log[-1][1]))); meta.append((dict(inp, op="jitter", draws=d.log[-1][1]), ns_arr(r.t)))
+        d = Draws(ctx.rng, q)
+        r = with_draws(d, lambda: nap.resample_timestamps(x))
+        lines.append("snew %s %s %d:%d" % (enc(d.log[-1][1]), enc(list(range(len(ts)))), a, b)); meta.append((dict(inp, op="resample", draws=d.log[-1][1]), ns_arr(r.t)))
         if len(ts) >= 2:
             d = Draws(ctx.rng, q)
             r = with_draws(d, lambda: nap.shuffle_ts_intervals(x))
@@ -119,6 +183,8 @@ def run(ctx):
     out = ctx.lean.run(lines) if ctx.lean else None
     if out is not None:
         for (inp, got), o in zip(meta, out):
+            if inp["op"] == "resample":
+                o = o.split("|")[0]
             if dec(o) != got:
                 ctx.fail("corr", "%s_timestamps != model on the recorded draws" % inp["op"], inp, impl=got, model=dec(o))
 
